@@ -125,6 +125,26 @@ func runC13(c *core.Ctx) {
 	c13PeerShapes(c)
 	c13MethodNearMisses(c)
 	c13LogoutNameIDs(c)
+
+	// an SP that publishes its certificate chain (ServiceProvider.Intermediates): the first certificate of the signing descriptor is still
+	// the SP's own, and everything it signs verifies under it
+	c.Group("sp-with-intermediate-certificates")
+	for _, km := range [][2]string{{"sp2048", dsig.RSASHA256SignatureMethod}, {"spec256", dsig.ECDSASHA256SignatureMethod}} {
+		for ni, chain := range [][]string{{"idpca"}, {"idpca", "idp2"}, {"idp2", "idpca", "attacker"}} {
+			for _, msg := range c13Messages {
+				km, chain, msg := km, chain, msg
+				key := fmt.Sprintf("intermediates/key=%s/chain=%d/%s", km[0], ni, msg)
+				c.Case(key, func(t *core.T) {
+					t.NonTrivial()
+					sp := harness.NewSP(harness.SPOpt{SPKey: km[0], SignMethod: km[1]})
+					for _, n := range chain {
+						sp.Intermediates = append(sp.Intermediates, samlgen.Key(n).Cert)
+					}
+					c13Emit(t, sp, km[0], km[1], msg, "rs", key)
+				})
+			}
+		}
+	}
 }
 
 // c13NameID is the name identifier the LogoutRequest cases ask to log out.
